@@ -1,4 +1,5 @@
 """C06 — data survives output -> JSON -> input unchanged (DESIGN §4 C06)."""
+import re
 from lib import hir as H
 from lib import mir as M
 from lib.facts import CheckerError
@@ -138,6 +139,35 @@ def run(ctx):
         ctx.inst("C06.R3", "write_outputs#serializer", aty.lstrip("&").startswith("indexmap::map::IndexMap<"), "serde_json::to_string(%s)" % aty, wo.loc(b))
 
     output_file_rule(ctx, "C06.R6", cli)
+
+    # ---- R7 numbers and texts are not filtered on the way
+    ctx.rule("C06.R7", "to_json writes every finite number as itself: the Number arm is not split by a condition other than finiteness (the only numbers JSON cannot hold are NaN and the infinities); the piped / flag text handed to the JSON parser is the text that was read", floor=2)
+    tj = core.hir_fn("blots_core::values::SerializableValue::to_json")
+    mm = H.main_match(tj["body"], "values::SerializableValue")
+    num_arms = [a for a in (mm["arms"] if mm else []) if any(H.last(v) == "Number" for v in H.pat_variants(a["pat"]))]
+    if not num_arms:
+        ctx.inst("C06.R7", "to_json#Number", None, "no Number arm found in to_json", H.loc(tj["body"]))
+    else:
+        FIN = {"is_finite", "is_nan", "is_infinite"}
+        conds = []
+        for a in num_arms:
+            if a.get("guard") is not None:
+                conds += [x["name"] for x in H.walk(a["guard"]) if H.kind(x) == "MethodCall"] + [x["op"] for x in H.walk(a["guard"]) if H.kind(x) == "Binary" and x["op"] in ("Eq", "Ne", "Lt", "Le", "Gt", "Ge")]
+            for x in H.walk(a["body"]):
+                if H.kind(x) == "If":
+                    conds += [y["name"] for y in H.walk(x["cond"]) if H.kind(y) == "MethodCall"] + [y["op"] for y in H.walk(x["cond"]) if H.kind(y) == "Binary" and y["op"] in ("Eq", "Ne", "Lt", "Le", "Gt", "Ge")]
+        other = sorted(set(c for c in conds if c not in FIN))
+        ctx.inst("C06.R7", "to_json#Number", not other, "conditions that select how a number is written: %s (anything but a finiteness test sends some finite numbers - subnormals, large magnitudes - down a different path)" % (sorted(set(conds)) or "none"), H.loc(num_arms[0]["body"]))
+    REWRITE = re.compile(r"::(replace|replacen|trim\w*|to_lowercase|to_uppercase|to_ascii_\w+|strip_\w+|split\w*|chars|filter|retain|truncate|remove|drain)$")
+    k7 = 0
+    for name, f in sorted(cli.mir.items()):
+        fn_ = M.Fn(f, name)
+        for b in fn_.calls_to("blots::parse_json_inputs"):
+            roots = fn_.trace(fn_.term(b)["args"][0])
+            bad = [r[1] for r in roots if r[0] == "call" and REWRITE.search(r[1])]
+            ctx.inst("C06.R7", "%s->parse_json_inputs[%d]#text" % (name.replace("blots::", ""), k7), not bad,
+                     "the JSON text comes from %s%s" % ([r[:2] for r in roots][:4], "" if not bad else ": rewritten by %s before it is parsed (characters inside strings and keys are affected too)" % bad), fn_.loc(b))
+            k7 += 1
 
     # ---- R4 every member of an input object is bound
     ctx.rule("C06.R4", "parse_json_inputs inserts every (key, value) of an input object: the insert is conditional only on the Ok of the value conversion, keyed by the member's own key", floor=1)
